@@ -489,7 +489,7 @@ func runC12(p *Program, r *Report) {
 			}
 			// the only *url.URL value in the function is the result of url.Parse(origin)
 			nURL := 0
-			for _, b := range fn.Blocks {
+			for _, b := range p.blocksOf(fn) {
 				for _, in := range b.Instrs {
 					if v, ok := in.(ssa.Value); ok && strings.HasSuffix(v.Type().String(), "*net/url.URL") {
 						if ex, isEx := in.(*ssa.Extract); !isEx || ex.Index != 0 {
@@ -703,7 +703,7 @@ func runC13(p *Program, r *Report) {
 }
 
 func randReaderPkg(p *Program, fn *ssa.Function) (string, bool) {
-	for _, b := range fn.Blocks {
+	for _, b := range p.blocksOf(fn) {
 		for _, in := range b.Instrs {
 			if u, ok := in.(*ssa.UnOp); ok {
 				if g, ok := u.X.(*ssa.Global); ok && g.Name() == "Reader" {
@@ -825,7 +825,7 @@ func runC14(p *Program, r *Report) {
 // constants the function compares with and the oracle's own constants.
 func paramStrings(fn *ssa.Function) []string {
 	set := map[string]bool{"": true, "x": true, "unknown_parameter": true}
-	for _, b := range fn.Blocks {
+	for _, b := range curProg.blocksOf(fn) {
 		for _, in := range b.Instrs {
 			var ops []*ssa.Value
 			for _, op := range in.Operands(ops) {
@@ -1050,7 +1050,7 @@ func c14client(p *Program, r *Report, rule string) {
 				return "NONE"
 			}
 			// a copy of the offer
-			if ad, ok := pa.Ret[0].(*Addr); ok && strings.Contains(ad.K, "_copts") {
+			if ad, ok := pa.Ret[0].(*Addr); ok && isLocalAllocKey(ad.K) {
 				return "COPY-OF-OFFER"
 			}
 			return "OPTIONS " + pa.Ret[0].Key()
@@ -1086,7 +1086,7 @@ func c14client(p *Program, r *Report, rule string) {
 			var sets []string
 			for _, e := range pa.Events {
 				if e.Kind == "store" && strings.HasSuffix(e.AddrK, "NoContextTakeover") {
-					if !strings.Contains(e.AddrK, "_copts") {
+					if !isLocalAllocKey(e.AddrK) {
 						return "WRITES-THE-CALLERS-OFFER " + e.AddrK
 					}
 					sets = append(sets, lastDot(e.AddrK)+"="+e.Val.Key())
@@ -1234,7 +1234,7 @@ func c14use(p *Program, r *Report, rule string) {
 		for _, fa := range p.FieldAccesses(f) {
 			if fa.Write || fa.Addr {
 				fname := p.FuncName(fa.Fn)
-				r.Exists(rule, fname, "store Conn.copts", p.InstrPos(fa.Instr), fname == "newConn", "Conn.copts is written only by newConn (the negotiated options never change afterwards)", fname)
+				r.Exists(rule, fname, "store Conn.copts", p.InstrPos(fa.Instr), p.ownedBy(fa.Fn, func(o string) bool { return o == "newConn" }), "Conn.copts is written only by newConn (the negotiated options never change afterwards)", fname)
 			}
 		}
 	}
@@ -1255,7 +1255,9 @@ func c14use(p *Program, r *Report, rule string) {
 		for _, fa := range p.FieldAccesses(f) {
 			if fa.Write {
 				fname := p.FuncName(fa.Fn)
-				ok := fname == "CompressionMode.opts" || fname == "acceptDeflate" || fname == "verifyServerExtensions"
+				ok := p.ownedBy(fa.Fn, func(o string) bool {
+					return o == "CompressionMode.opts" || o == "acceptDeflate" || o == "verifyServerExtensions"
+				})
 				r.Exists(rule, fname, "store "+name, p.InstrPos(fa.Instr), ok, "the takeover flags are written only during negotiation (opts, acceptDeflate, verifyServerExtensions)", fname)
 			}
 		}
